@@ -190,7 +190,7 @@ func (g *Gateway) handleWebsocketProtocol(ctx context.Context, c *websocket.Conn
 // and RDG_OUT_DATA for server -> client data. The handshakeRequest procedure is a bit different
 // to ensure the connections do not get cached or terminated by a proxy prematurely.
 func (g *Gateway) handleLegacyProtocol(w http.ResponseWriter, r *http.Request, t *Tunnel) {
-	log.Printf("Session %s, %t, %t", t.RDGId, t.transportOut != nil, t.transportIn != nil)
+	log.Printf("Session %s, %t, %t", t.RDGId, t.transportOut != nil, t.hasIn())
 
 	id := identity.FromRequestCtx(r)
 	if r.Method == MethodRDGOUT {
@@ -223,9 +223,8 @@ func (g *Gateway) handleLegacyProtocol(w http.ResponseWriter, r *http.Request, t
 		}
 		defer in.Close()
 
-		if t.transportIn == nil {
-			t.Id = uuid.New().String()
-			t.transportIn = in
+		// several RDG_IN_DATA requests for one connection can arrive at the same time
+		if t.claimIn(in) {
 			c.Set(t.RDGId, t, cache.DefaultExpiration)
 
 			log.Printf("Opening RDGIN for client %s", id.GetAttribute(identity.AttrClientIp))
